@@ -1619,3 +1619,40 @@ try:
     INTERP.concretize_boundary(_pyzstd.decompress)
 except ImportError:  # pragma: no cover
     pass
+
+
+# ---------------------------------------------------------------------------
+# pydantic boundary: models are built with model_construct (pydantic's own pure-Python
+# constructor: assigns declared fields, applies defaults, no validation/coercion) whenever a
+# symbolic value is reachable from the arguments; otherwise the real validating constructor runs.
+# ---------------------------------------------------------------------------
+def contains_sym(x, depth=8) -> bool:
+    if is_sym(x) or isinstance(x, SymEnum):
+        return True
+    if depth <= 0:
+        return False
+    if isinstance(x, list | tuple | set | frozenset):
+        return any(contains_sym(e, depth - 1) for e in x)
+    if isinstance(x, dict):
+        return any(contains_sym(k, depth - 1) or contains_sym(v, depth - 1) for k, v in x.items())
+    d = getattr(x, "__dict__", None)
+    if d is not None and not isinstance(x, type) and not isinstance(x, types.ModuleType | types.FunctionType):
+        if type(x).__module__.startswith(("hugr.", "pydantic")) or hasattr(type(x), "model_fields"):
+            return any(contains_sym(v, depth - 1) for v in d.values())
+    return False
+
+
+def _pydantic_stub(interp, cls, args, kwargs):
+    try:
+        import pydantic
+    except ImportError:  # pragma: no cover
+        return NotImplemented
+    if not (isinstance(cls, type) and issubclass(cls, pydantic.BaseModel)):
+        return NotImplemented
+    if args or not contains_sym(kwargs):
+        return NotImplemented
+    _ctx.cur().stats.stubs.add("pydantic:model_construct-when-symbolic")
+    return cls.model_construct(**kwargs)
+
+
+INTERP.class_stubs.append(_pydantic_stub)
